@@ -184,9 +184,13 @@ Consistent(F) ==
         (i # j /\ g[2][i].k = "upd" /\ g[2][j].k = "upd")
           => Target(<<g[2][i], g[3]>>) # Target(<<g[2][j], g[3]>>)
 
-\* two textually identical when / forall effects would collapse in the set of
-\* groups; such inputs are outside the consistent fragment
-NoDupGroups(effs) == \A i, j \in DOMAIN effs : (i # j /\ ~IsSimple(effs[i])) => effs[i] # effs[j]
+\* two textually identical when / forall effects collapse in the set of groups.
+\* That is harmless when they only add / delete atoms (idempotent); with a numeric
+\* update it would hide a fluent written twice, so such inputs are outside the
+\* consistent fragment
+NoDupGroups(effs) ==
+  \A i, j \in DOMAIN effs :
+     (i # j /\ ~IsSimple(effs[i]) /\ \E k \in DOMAIN effs[i].es : effs[i].es[k].k = "upd") => effs[i] # effs[j]
 
 (* The declarative successor.  Result [ok, st]; ok = FALSE marks a
    don't-care (undetermined condition, undefined read, inconsistent effects). *)
